@@ -1,13 +1,14 @@
 #!/bin/bash
 # Builds the harness in the configurations the quick tier needs (offline, from files on disk).
-cd /verif/harness || exit 2
+V="$(cd "$(dirname "$0")/.." && pwd)"
+cd "$V/harness" || exit 2
 export CARGO_NET_OFFLINE=true
-b() { local name=$1; shift; CARGO_TARGET_DIR=/verif/target-$name cargo "$@" build --release --offline > /verif/.build-target-$name.log 2>&1 || { echo "build $name failed"; tail -20 /verif/.build-target-$name.log; return 1; }; }
+b() { local name=$1; shift; CARGO_TARGET_DIR=$V/target-$name cargo "$@" build --release --offline > $V/.build-target-$name.log 2>&1 || { echo "build $name failed"; tail -20 $V/.build-target-$name.log; return 1; }; }
 b default || exit 2
 P=""
 b fast-legacy --features fast-legacy & P="$P $!"
 b less-slow --features less-slow & P="$P $!"
-( CARGO_TARGET_DIR=/verif/target-simd-std cargo +nightly build --release --offline --features simd-accel,std > /verif/.build-target-simd-std.log 2>&1 || { echo "build simd-std failed"; tail -20 /verif/.build-target-simd-std.log; exit 1; } ) & P="$P $!"
+( CARGO_TARGET_DIR=$V/target-simd-std cargo +nightly build --release --offline --features simd-accel,std > $V/.build-target-simd-std.log 2>&1 || { echo "build simd-std failed"; tail -20 $V/.build-target-simd-std.log; exit 1; } ) & P="$P $!"
 RC=0
 for p in $P; do wait $p || RC=2; done
 exit $RC
